@@ -89,15 +89,31 @@ func (t *T) TakeOutput(settle bool) []byte {
 // Parse turns child output bytes into sequences with the library's own
 // parser, exactly as the PTY goroutine receives them.
 func Parse(b []byte) []ansi.Sequence {
+	// The whole input is available to the parser at once, so an ESC is always
+	// promptly followed by the next byte and the Escape key can never be
+	// reported legitimately.  On an overloaded machine the parser's 10 ms
+	// wall-clock timer can still fire between two bytes (DESIGN §2.6); such
+	// a parse is an artefact of the schedule and is repeated.
+	for try := 0; ; try++ {
+		out, spurious := parseOnce(b)
+		if !spurious || try >= 20 {
+			return out
+		}
+	}
+}
+
+func parseOnce(b []byte) (out []ansi.Sequence, spuriousEsc bool) {
 	p := ansi.NewParser(bytes.NewReader(b))
-	var out []ansi.Sequence
 	for seq := range p.Next() {
 		if _, ok := seq.(ansi.EOF); ok {
 			continue
 		}
+		if c, ok := seq.(ansi.C0); ok && c == 0x1b {
+			spuriousEsc = true
+		}
 		out = append(out, seq)
 	}
-	return out
+	return out, spuriousEsc
 }
 
 // Feed parses and applies child output; it returns the events raised and the
